@@ -191,6 +191,12 @@ class Family:
     def bounds(self):
         return []
 
+    # bounded stand-in used only when a contract no longer fits the code (restructured function):
+    # returns (pkgdir, go test source, description of the bound) or None
+    @classmethod
+    def bounded_source(cls, prog, fname):
+        return None
+
 
 def go_runes(vals, prefix, n):
     out = []
@@ -221,6 +227,56 @@ class ScannerFamily(Family):
         if self.func.short == 'UnreadMany':
             d['count'] = 'count'
         return d
+
+    @classmethod
+    def bounded_source(cls, prog, fname):
+        src = '''package io
+
+import "testing"
+
+// bounded stand-in: every content over {a, LF, CR} up to length 5, every cursor, every operation,
+// compared with a fresh forward scan (the reference of the property statement)
+func TestVerifReplay(t *testing.T) {
+	alphabet := []rune{'a', 10, 13}
+	var contents [][]rune
+	var gen func(cur []rune, n int)
+	gen = func(cur []rune, n int) {
+		contents = append(contents, append([]rune{}, cur...))
+		if n == 0 { return }
+		for _, ch := range alphabet { gen(append(cur, ch), n-1) }
+	}
+	gen(nil, 5)
+	mk := func(c []rune, k int) *StringScanner {
+		s := NewStringScanner(string(c))
+		for i := 0; i < k; i++ { s.Read() }
+		return s
+	}
+	same := func(what string, c []rune, k int, s *StringScanner, want int) {
+		if want < 0 { want = 0 }
+		f := mk(c, want)
+		if s.position != f.position || s.line != f.line || s.column != f.column {
+			t.Fatalf("%s after %d reads on %q: (position,line,column)=(%d,%d,%d), fresh forward scan gives (%d,%d,%d)", what, k, string(c), s.position, s.line, s.column, f.position, f.line, f.column)
+		}
+		if a, b := s.Read(), f.Read(); a != b { t.Fatalf("%s after %d reads on %q: next Read %d, fresh scanner %d", what, k, string(c), a, b) }
+	}
+	for _, c := range contents {
+		n := len(c)
+		for k := 0; k <= n+1; k++ {
+			s := mk(c, k); ch := s.Read(); w := k + 1; if w > n+1 { w = n + 1 }
+			if k < n && ch != c[k] || k >= n && ch != -1 { t.Fatalf("Read #%d on %q returned %d", k+1, string(c), ch) }
+			same("Read", c, k, mk(c, w), w)
+			s = mk(c, k); s.Unread(); same("Unread", c, k, s, k-1)
+			for cnt := -1; cnt <= 3; cnt++ { s = mk(c, k); s.UnreadMany(cnt); m := cnt; if m < 0 { m = 0 }; same("UnreadMany", c, k, s, k-m) }
+			s = mk(c, k); s.Reset(); same("Reset", c, k, s, 0)
+			s = mk(c, k); pl, pc, pk := s.PeekLine(), s.PeekColumn(), s.Peek()
+			if s.position != k-1 { t.Fatalf("peek moved the cursor") }
+			r := s.Read()
+			if pk != r || pl != s.Line() || pc != s.Column() { t.Fatalf("after %d reads on %q: peeked (%d, line %d, column %d), the next Read gives (%d, line %d, column %d)", k, string(c), pk, pl, pc, r, s.Line(), s.Column()) }
+		}
+	}
+}
+'''
+        return 'io', src, 'all contents over {a, LF, CR} up to length 5 x all cursors x all scanner operations'
 
     def bounds(self):
         if self.func.short == 'NewStringScanner':
@@ -307,6 +363,8 @@ class CharMapFamily(Family):
         names = [p['n'] for p in self.func.params]
         if 'symbol' in names:
             d['symbol'] = 'symbol'
+        if 'reference' in names:
+            d['refnil'] = 'reference == nil'
         if 'start' in names:
             d['start'] = 'start'
             d['end'] = 'end'
@@ -336,9 +394,9 @@ class CharMapFamily(Family):
         sym = vals.get('symbol', 300)
         st, en = vals.get('start', 0), vals.get('end', 0)
         if m == 'AddInterval' and isinstance(st, int) and isinstance(en, int) and 0 <= st <= en and st <= 0xfffe:
-            regs.append('{%d, %d, "new"}' % (st, en))
+            regs.append('{%d, %d, "%s"}' % (st, en, '' if vals.get('refnil') is True else 'new'))
         if m == 'AddDefaultInterval':
-            regs.append('{0, 0xfffe, "new"}')
+            regs.append('{0, 0xfffe, "%s"}' % ('' if vals.get('refnil') is True else 'new'))
         probes = [0, 255, 256, 0xfffe, 0xffff]
         for v in (sym, st, en):
             if isinstance(v, int):
@@ -360,7 +418,7 @@ func voracle(regs []vreg, ch rune) any {
 	for i := len(regs) - 1; i >= 0; i-- {
 		e := regs[i].e
 		if e >= 0xffff { e = 0xfffe }
-		if regs[i].s <= ch && ch <= e { return regs[i].ref }
+		if regs[i].s <= ch && ch <= e { if regs[i].ref == "" { return nil }; return regs[i].ref }
 	}
 	return nil
 }
@@ -369,11 +427,14 @@ func TestVerifReplay(t *testing.T) {
 	regs := []vreg{%(regs)s}
 	m := NewCharReferenceMap()
 	if %(clear)s { m.Clear(); regs = nil }
-	for _, r := range regs { m.AddInterval(r.s, r.e, r.ref) }
-	for _, ch := range []rune{%(probes)s} {
-		got := m.Lookup(ch)
-		want := voracle(regs, ch)
-		if got != want { t.Fatalf("Lookup(%%#x) = %%v (%%T), latest covering registration is %%v; registrations %%v", ch, got, got, want, regs) }
+	// lookups are interleaved with the registrations (any history), an empty reference registers "nothing"
+	for i, r := range regs {
+		if r.ref == "" { m.AddInterval(r.s, r.e, nil) } else { m.AddInterval(r.s, r.e, r.ref) }
+		for _, ch := range []rune{%(probes)s} {
+			got := m.Lookup(ch)
+			want := voracle(regs[:i+1], ch)
+			if got != want { t.Fatalf("Lookup(%%#x) = %%v (%%T), latest covering registration is %%v; registrations %%v", ch, got, got, want, regs[:i+1]) }
+		}
 	}
 }
 ''' % {'regs': ', '.join(regs), 'probes': ', '.join(str(p) for p in probes), 'clear': 'true' if m == 'Clear' else 'false'}
@@ -385,6 +446,76 @@ class VariantFamily(Family):
     """re-creates the receiver (and the other operand) from their variant type and array length through the
     public constructors, then checks the C20 statement around the function under contract"""
     NAMES = ['Null', 'Integer', 'Long', 'Float', 'Double', 'String', 'Boolean', 'DateTime', 'TimeSpan', 'Object', 'Array']
+
+    @classmethod
+    def bounded_source(cls, prog, fname):
+        src = '''package variants
+
+import "testing"
+
+// bounded stand-in: every sequence of up to 3 array operations (SetByIndex 0..6, SetLength 0..6, clone-and-write)
+// on arrays of length 0..2, compared with a plain list model; plus equality/copy checks on every scalar type
+func TestVerifReplay(t *testing.T) {
+	type op struct{ kind, arg int }
+	var ops []op
+	for i := 0; i <= 6; i++ { ops = append(ops, op{0, i}, op{1, i}) }
+	ops = append(ops, op{2, 0})
+	check := func(v *Variant, model []*Variant, what string) {
+		if v.Length() != len(model) { t.Fatalf("%s: length %d, want %d", what, v.Length(), len(model)) }
+		for i := range model {
+			e := v.GetByIndex(i)
+			if e == nil { t.Fatalf("%s: element %d is a nil pointer, want a variant", what, i) }
+			if model[i] == nil { if !e.IsNull() { t.Fatalf("%s: element %d should be Null", what, i) } } else if e != model[i] { t.Fatalf("%s: element %d changed", what, i) }
+		}
+	}
+	// every sequence of up to 3 operations, applied in place to a freshly built array (so spare capacity
+	// left by an earlier growth is exercised), checked against the list model after every step
+	var seqs [][]op
+	var gen func(cur []op, d int)
+	gen = func(cur []op, d int) {
+		seqs = append(seqs, append([]op{}, cur...))
+		if d == 0 { return }
+		for _, o := range ops { gen(append(cur, o), d-1) }
+	}
+	gen(nil, 3)
+	for n := 0; n <= 2; n++ {
+		for _, sq := range seqs {
+			var l []*Variant
+			for i := 0; i < n; i++ { l = append(l, VariantFromInteger(i)) }
+			v := VariantFromArray(l)
+			model := append([]*Variant{}, l...)
+			if n > 0 { keep := l[0]; l[0] = VariantFromInteger(9); check(v, model, "caller list changed"); l[0] = keep }
+			trace := ""
+			for _, o := range sq {
+				switch o.kind {
+				case 0:
+					x := VariantFromInteger(100 + o.arg); v.SetByIndex(o.arg, x)
+					for len(model) <= o.arg { model = append(model, nil) }
+					model[o.arg] = x; trace += " SetByIndex"
+				case 1:
+					v.SetLength(o.arg)
+					for len(model) < o.arg { model = append(model, nil) }
+					trace += " SetLength"
+				case 2:
+					c := v.Clone()
+					if !c.Equals(v) || !v.Equals(c) { t.Fatalf("%s: clone differs", trace) }
+					c.SetByIndex(0, VariantFromString("w")); trace += " Clone+write"
+				}
+				check(v, model, trace)
+			}
+		}
+	}
+	scalars := []*Variant{EmptyVariant(), VariantFromInteger(1), VariantFromLong(2), VariantFromFloat(1.5), VariantFromDouble(2.5), VariantFromString("s"), VariantFromBoolean(true), VariantFromArray(nil)}
+	for i, a := range scalars {
+		if !a.Equals(a.Clone()) { t.Fatalf("scalar %d: clone differs", i) }
+		for j, b := range scalars {
+			if a.Equals(b) != b.Equals(a) { t.Fatalf("Equals not symmetric for %d, %d", i, j) }
+			if i != j && a.Equals(b) { t.Fatalf("different values %d, %d equal", i, j) }
+		}
+	}
+}
+'''
+        return 'variants', src, 'all sequences of <= 3 array operations (SetByIndex/SetLength 0..6, clone) on arrays of length 0..2; equality on one value per scalar type'
 
     def inputs(self):
         d = {}
@@ -498,4 +629,101 @@ func replayCopies(t *testing.T) {
 	if a.Length() != 5 || !a.GetByIndex(2).IsNull() || !a.GetByIndex(3).IsNull() || a.GetByIndex(4).AsInteger() != 5 { t.Fatalf("SetByIndex past the end") }
 }
 ''' % {'c': c, 'o': o}
+        return 'variants', src
+
+
+@family(r'/variants\.Type(Safe|Unsafe)VariantOperations\)\.(Convert|convertFrom)')
+class ConvertFamily(Family):
+    def inputs(self):
+        d = {'newType': 'newType'}
+        ps = {p['n'] for p in self.func.params}
+        if 'value' in ps:
+            d['vtyp'] = 'value.typ'
+            d['pi'] = 'value.value.(int)'
+            d['pl'] = 'value.value.(int64)'
+            d['pd'] = 'value.value.(time.Duration)'
+            d['pb'] = 'value.value.(bool)'
+        return d
+
+    def bounds(self):
+        if 'vtyp' in self.inputs():
+            return ['value.typ == Integer ==> -1000000 <= value.value.(int) && value.value.(int) <= 1000000',
+                    'value.typ == Long ==> -1000000 <= value.value.(int64) && value.value.(int64) <= 1000000']
+        return []
+
+    def test_source(self, vals):
+        safe = 'TypeSafe' in self.obl.fn
+        vt = vals.get('vtyp', 0)
+        if not isinstance(vt, int) or vt < 0 or vt > 10:
+            vt = 0
+        if self.func.short.startswith('convertFrom') and self.func.short != 'convertFromNull':
+            names = {'Integer': 1, 'Long': 2, 'Float': 3, 'Double': 4, 'String': 5, 'Boolean': 6, 'DateTime': 7, 'TimeSpan': 8}
+            vt = names.get(self.func.short[len('convertFrom'):], vt)
+        nt = vals.get('newType', 0)
+        if not isinstance(nt, int) or nt < 0 or nt > 10:
+            nt = 0
+        pay = 0
+        for k in ('pi', 'pl', 'pd'):
+            if isinstance(vals.get(k), int) and vals[k] != 0:
+                pay = vals[k]
+        if abs(pay) > 2 ** 62:
+            pay = 12345
+        src = '''package variants
+
+import (
+	"testing"
+	"time"
+)
+
+func mkconv(typ VariantType, p int64) *Variant {
+	switch typ {
+	case Null: return EmptyVariant()
+	case Integer: return VariantFromInteger(int(p))
+	case Long: return VariantFromLong(p)
+	case Float: return VariantFromFloat(float32(p %% 1000))
+	case Double: return VariantFromDouble(float64(p %% 1000000))
+	case String: return VariantFromString("12")
+	case Boolean: return VariantFromBoolean(p %% 2 != 0)
+	case DateTime: return VariantFromDateTime(time.Unix(p %% 4000000000, 0))
+	case TimeSpan: return VariantFromTimeSpan(time.Duration(p))
+	case Array: return VariantFromArray([]*Variant{VariantFromInteger(1)})
+	}
+	return VariantFromObject(struct{ A int }{1})
+}
+
+func widening(from, to VariantType) bool {
+	return (from == Integer && (to == Long || to == Float || to == Double)) || (from == Long && (to == Float || to == Double)) || (from == Float && to == Double)
+}
+
+func TestVerifReplay(t *testing.T) {
+	safe := %(safe)s
+	var ops IVariantOperations = NewTypeUnsafeVariantOperations()
+	if safe { ops = NewTypeSafeVariantOperations() }
+	from, to, p := VariantType(%(vt)d), VariantType(%(nt)d), int64(%(pay)d)
+	v := mkconv(from, p)
+	r, err := ops.Convert(v, to)
+	if (r != nil) == (err != nil) { t.Fatalf("Convert(%%d -> %%d): result %%v and error %%v", from, to, r, err) }
+	if err != nil {
+		if safe || to == Null || to == Object || to == from { if to == Null || to == Object || to == from || widening(from, to) { t.Fatalf("permitted conversion %%d -> %%d failed: %%v", from, to, err) } }
+		return
+	}
+	if safe && !(to == Null || to == Object || to == from || widening(from, to)) {
+		t.Fatalf("type-safe manager converted %%d -> %%d without error (result type %%d)", from, to, r.Type())
+	}
+	switch {
+	case to == Null: if r.Type() != Null { t.Fatalf("Null requested, got type %%d", r.Type()) }
+	case to == Object || to == from: if r != v { t.Fatalf("own type / Object requested but the value was not returned unchanged") }
+	default: if r.Type() != to { t.Fatalf("requested type %%d, got a value of type %%d", to, r.Type()) }
+	}
+	// payload formulas of the statement and round trips of the widening conversions
+	if (from == Integer || from == Long) && to == TimeSpan {
+		if r.AsTimeSpan() != time.Duration(p)*time.Millisecond { t.Fatalf("%%d ms converted to time span %%v", p, r.AsTimeSpan()) }
+	}
+	if (from == Integer || from == Long) && (to == TimeSpan || to == DateTime || to == Long || to == Integer) && p > -9000000000000 && p < 9000000000000 {
+		back, err2 := NewTypeUnsafeVariantOperations().Convert(r, from)
+		if err2 != nil { t.Fatalf("converting back failed: %%v", err2) }
+		if !back.Equals(v) { t.Fatalf("round trip %%d -> %%d -> %%d: %%v became %%v", from, to, from, v, back) }
+	}
+}
+''' % {'safe': 'true' if safe else 'false', 'vt': vt, 'nt': nt, 'pay': pay}
         return 'variants', src
